@@ -50,6 +50,20 @@ def uses(rng, names, mode):
     return out[: rng.randrange(3, len(out) + 1)]
 
 
+def rand_sum(rng, names):
+    """a sum of 2..5 terms, names and constants in any position and with either sign (the first term positive): with
+    the definitions written out of dependency order some names are still unknown when the body is first folded"""
+    k = rng.randrange(2, 6)
+    terms = []
+    for j in range(k):
+        t = ("id", rng.choice(names)) if rng.random() < 0.5 else ("num", rng.choice([1, 7, 20, 100, 255, 4096]))
+        terms.append(("+" if j == 0 else rng.choice("+-"), t))
+    if not any(t[1][0] == "id" for t in terms):
+        terms[rng.randrange(len(terms))] = (terms[0][0] if len(terms) == 1 else "-", ("id", rng.choice(names)))
+        terms[0] = ("+", terms[0][1])
+    return A.sum_of(terms)
+
+
 def run(v, tier, rng):
     n = 200 if tier == "quick" else 4000
     pairs = []
@@ -67,7 +81,8 @@ def run(v, tier, rng):
                 body = rng.choice([A.sum_of([("+", prev), ("+", ("num", rng.choice([1, 2, 16])))]),
                                    A.add([("+", ("mul", prev, [(rng.choice("*/"), ("num", rng.choice([2, 4, 0x1000])))]))]),
                                    A.sum_of([("+", prev), ("-", ("id", rng.choice(order)))]),
-                                   A.add([("+", ("mul", prev, [("/", ("hex", 0x1000))])), ("+", ("mul", ("num", 1), []))])])
+                                   A.add([("+", ("mul", prev, [("/", ("hex", 0x1000))])), ("+", ("mul", ("num", 1), []))]),
+                                   rand_sum(rng, order), rand_sum(rng, order)])
             defs[nm] = body
             order.append(nm)
         us = uses(rng, order, mode)
